@@ -55,13 +55,13 @@ MANIFEST = {
              "holds it and it is relevant; invariant: a GAP in flight only covers sequence numbers at which nothing "
              "relevant is held, a HEARTBEAT's first sequence number is at or below everything held, and a GAP only "
              "advances the reader when it is contiguous with what is accounted for (repair 91937ff of the former finding "
-             "C01-gap-skip). LIVENESS, proved part (stage 1: KEEP_ALL writer, samples that fit one DATA "
-             "submessage, no removal, reader not deleted, at most 256 samples): after ANY such schedule - all loss, "
+             "C01-gap-skip). LIVENESS, proved part (ANY history QoS - KEEP_ALL or KEEP_LAST with any number of "
+             "instances, i.e. histories with holes -, samples that fit one DATA "
+             "submessage, no explicit removal, reader not deleted, at most 256 samples): after ANY such schedule - all loss, "
              "duplication, reordering and delay patterns, late joiners - one heartbeat period (five worker ticks) and "
              "ANY loss-free delivery sequence (single deliveries in any order, FIFO pumps), whenever nothing is queued "
              "any more every change the writer holds and that is relevant for the reliable reader has been presented; "
-             "by a class invariant (GAPs only cover irrelevant samples, nothing relevant below highest_received is "
-             "skipped) and a healing invariant (the newest HEARTBEAT is on its way or processed; once processed the "
+             "by the general soundness invariant above plus counter invariants of the class and a healing invariant (the newest HEARTBEAT is on its way or processed; once processed the "
              "newest ACKNACK, which requests the last sample, is on its way; processing it makes the writer emit a "
              "newer HEARTBEAT). The model is tied to the code by running each scenario on the real stack in a "
              "deterministic simulation and comparing inside Coq every observation (take results, API results, "
@@ -70,7 +70,7 @@ MANIFEST = {
              "relevant sample was presented) judges the real observations, fragmented samples included."),
     "note": ("Trusted: Coq kernel, hand model RelModel.v (correspondence-checked on every run), simulation harness, "
              "generator. Axioms: none. Former finding C01-gap-skip is repaired (91937ff); its schedule is in the corpus. "
-             "Liveness for fragmented samples and KEEP_LAST histories (holes) is covered by the oracle on every scenario "
+             "Liveness for fragmented samples is covered by the oracle on every scenario "
              "and by closed examples only (fragment repair works since 9534038/46bd1ab; byte-level reassembly is C05); termination of the "
              "healing exchange is observed on every scenario, not proved. One writer/reader pair."),
     "technique": "Coq proof (invariants over all schedules, healing invariant) + differential correspondence on a deterministic whole-stack simulation",
